@@ -84,10 +84,16 @@ func main() {
 			go func() {
 				defer wg.Done()
 				io.Copy(backendConn, conn)
+				// The TCP client is done (or gone): close the bridge so that the far
+				// end observes the end of the stream and the other copy is unblocked.
+				backendConn.Close()
 			}()
 			go func() {
 				defer wg.Done()
 				io.Copy(conn, backendConn)
+				// The bridge was closed by the far end: let the TCP client observe
+				// the end of the stream, which also unblocks the other copy.
+				conn.Close()
 			}()
 			wg.Wait()
 		}()
